@@ -392,12 +392,14 @@ namespace
       if(k > kmax) kmax = k;
     }
     void mag(LD a) { if(a > mmax) mmax = a; }
-    LD mul(LD a, LD b) { LD p = a * b; if(fmal(a, b, -p) != 0.0L) inexact = true; see(p); return p; }
+    bool dbl = false;   // emulate double precision arithmetic (used to estimate the rounding sensitivity of a configuration)
+    LD mul(LD a, LD b) { LD p = a * b; if(fmal(a, b, -p) != 0.0L) inexact = true; if(dbl) p = (LD)(double)p; see(p); return p; }
     LD add(LD s, LD p)
     {
       LD r = s + p, bb = r - s;
       LD err = (s - (r - bb)) + (p - bb);
       if(err != 0.0L) inexact = true;
+      if(dbl) r = (LD)(double)r;
       see(r);
       return r;
     }
@@ -457,7 +459,7 @@ namespace
     {
       for(size_t i = 0; i < y.size(); ++i) { LD p = tr.mul(w, x[i]); tr.mag(fabsl(y[i]) + fabsl(p)); y[i] = tr.add(y[i], p); }
     }
-    LD dot(const LV& a, const LV& b) { LD s = 0.0L; for(size_t i = 0; i < a.size(); ++i) s += a[i] * b[i]; return s; }
+    LD dot(const LV& a, const LV& b) { LD s = 0.0L; for(size_t i = 0; i < a.size(); ++i) { s += a[i] * b[i]; if(tr.dbl) s = (LD)(double)s; } return s; }
 
     LV defect(const LvlSpec& L, const LV& b, const LV& x) { return mask(L.fd, sub(b, matvec(L.A, x))); }
 
@@ -499,7 +501,7 @@ namespace
         // the minimiser is undefined if the correction vanishes; "vanishes" must be decided up to rounding, because the
         // implementation (double) and this reference (long double) reach an exact solution with different residues
         LD cn = 0.0L; for(LD v : c) cn = std::max(cn, fabsl(v));
-        if(den == 0.0L || cn <= 1e-13L * bscale) { undefined = true; w = 0.0L; if(getenv("C09_DEBUG")) { LD dn = 0; for(LD v : d) dn = std::max(dn, fabsl(v)); fprintf(stderr, "undefined at level %d: |c|=%Lg |d|=%Lg den=%Lg events=%zu\n", l, cn, dn, den, ev.size()); } } else w = num / den;
+        if(den == 0.0L || cn <= 1e-13L * bscale) { undefined = true; w = 0.0L; } else w = num / den;
         omegas.push_back(w);
       }
       axpy(x, w, c);
@@ -615,14 +617,14 @@ int main(int argc, char** argv)
   spec.bounds_quick = "n=1..6 levels, g in {0,1,2}; 13 uniform smoother patterns (8 presence + 5 alias) + all 64 per-level presence "
     "combinations for n=3; coarse solver none/own/alias; 3 filter variants; Fixed/MinEnergy/MinDefect; all (top,coarse) sub-ranges x {V,F,W}; "
     "BFS to closure for n<=4, histories up to 2 ops for n>=5 (with reduced configuration product for n>=5 and for the Poisson value set); dyadic value set for all, Poisson value set for a sub-family; all unit defects + 2 dense at depth 0";
-  spec.bounds_thorough = "full configuration product for all n<=6 and both value sets, BFS to closure for n<=5 and histories up to 3 ops for n=6, all 512 per-level presence combinations for n=4";
+  spec.bounds_thorough = "full configuration product for n<=6 (Poisson value set at n=6: 5 patterns x coarse none/own x filter none/same), BFS to closure for n<=5 and histories up to 3 ops (2 for the non-core patterns) for n=6, all 512 per-level presence combinations for n=4";
   spec.assumptions = {
     "sub-solvers are linear maps that respect the level filter (S = Fc S' Fd), as real FEAT solvers which carry their filter",
     "the defect passed to apply() is filtered (FEAT convention)",
     "filters are diagonal 0/1 projections; the reference applies them to every defect/correction (idempotent), so only missing or swapped filters are visible, not redundant ones",
     "level vectors of the hierarchy keep stale contents between histories (don't-care state by contract)",
     "adaptive CGC: (configuration, defect) pairs in which a coarse grid correction vanishes to rounding (|c| <= 1e-13 |defect|) are excluded from the result comparison (step length 0/0 not defined; trace and counters are still checked); the exactly-zero class is tested once by case 1",
-    "bitwise comparison where the long double reference proves all intermediate terms exactly representable in double, else |diff| <= 1e-12*max(1,|ref|)",
+    "bitwise comparison where the long double reference proves all intermediate terms exactly representable in double, else |diff| <= 1e-12*max(1, largest sum of absolute terms of any inner product in the reference evaluation) + 64*|reference(long double) - reference(emulated double)| (the second term is evaluated only where the first alone fails: non-contractive configurations amplify rounding errors)",
     "LAFEM::SparseMatrixCSR::apply, DenseVector::axpy/dot/copy are trusted here (C01/C04)"};
 
   return verif::run(spec, argc, argv, [&](verif::Ctx& c) {
@@ -685,6 +687,12 @@ int main(int argc, char** argv)
         const std::vector<int>& pat = pats[pi];
         if(cs == 2 && !(pi == 7 || pi == 1)) continue;             // alias coarse==pre only with patterns {pre} and {pre,post,peak}
         if(pi >= 13 && (cs == 2 || filt == 2 || adapt == 2)) continue; // per-level combos: reduced product
+        if(c.thorough)
+        {
+          // thorough tier: the largest Poisson hierarchies (127 dofs on top) with a sub-family of the configuration product
+          const bool core5 = (pi == 0 || pi == 3 || pi == 7 || pi == 10 || pi == 12);
+          if(vs == 1 && n == 6 && !(core5 && cs != 2 && filt != 2)) continue;
+        }
         if(!c.thorough)
         {
           // quick tier: reduced products for the expensive families (the small hierarchies carry the full product)
@@ -861,7 +869,10 @@ int main(int argc, char** argv)
             return;
           }
           const bool exact = ref.tr.exact_in_double();
-          LD scale = 1.0L; for(LD t : x) scale = std::max(scale, fabsl(t));
+          // scale of the rounding errors: the largest sum of absolute values of the terms of any inner product of the
+          // reference evaluation (configurations without a coarse solver on the Poisson levels are far from contractive:
+          // large intermediate values cancel in the result)
+          LD scale = std::max((LD)1.0L, ref.tr.mmax); for(LD t : x) scale = std::max(scale, fabsl(t));
           bool num_ok = true; int bad = -1;
           for(int i = 0; i < T.dim; ++i)
           {
@@ -869,9 +880,23 @@ int main(int argc, char** argv)
             const bool ok = exact ? (v == x[size_t(i)]) : (fabsl(v - x[size_t(i)]) <= 1e-12L * scale);
             if(!ok) { num_ok = false; if(bad < 0) bad = i; }
           }
+          LD sens = 0.0L;
+          if(!exact && !num_ok)
+          {
+            // rounding sensitivity of this (configuration, defect): distance between the long double reference and the same
+            // reference evaluated in emulated double precision; a correct double implementation may differ by a comparable amount
+            Ref refd(H, f.cycle, f.top, f.crs, adapt);
+            refd.tr.dbl = true;
+            LV xd = refd.run(b);
+            for(int i = 0; i < T.dim; ++i) sens = std::max(sens, fabsl(xd[size_t(i)] - x[size_t(i)]));
+            num_ok = std::isfinite((double)sens) && !refd.undefined; bad = -1;
+            for(int i = 0; i < T.dim && num_ok; ++i) if(!(fabsl((LD)cor(Index(i)) - x[size_t(i)]) <= 1e-12L * scale + 64.0L * sens)) { num_ok = false; bad = i; }
+            if(bad < 0 && !num_ok) bad = 0;
+            c.count("results_compared_with_sensitivity_bound");
+          }
           if(exact) ++n_exact; else ++n_tol;
           c.check(num_ok, std::string("result vector (") + (exact ? "bitwise" : "1e-12") + "); " + key, [&]{
-            char buf[256]; snprintf(buf, sizeof buf, "component %d: impl %.17g reference %.17Lg", bad, cor(Index(bad)), x[size_t(bad)]);
+            char buf[300]; snprintf(buf, sizeof buf, "component %d: impl %.17g reference %.17Lg (rounding sensitivity %.3Lg)", bad, cor(Index(bad)), x[size_t(bad)], sens);
             return std::string(buf) + where(); });
 
           // (2b) adaptive CGC on a bare two-level configuration: the step length is a minimiser by definition
@@ -898,7 +923,8 @@ int main(int argc, char** argv)
         };
 
         // ---- BFS over histories, states keyed by the counter vector
-        const size_t maxdepth = c.thorough ? (n <= 5 ? 99 : 2) : (n <= 4 ? 99 : 1); // histories longer than this are not expanded
+        const bool core5_ = (pi == 0 || pi == 3 || pi == 7 || pi == 10 || pi == 12);
+        const size_t maxdepth = c.thorough ? (n <= 5 ? 99 : (core5_ ? 2 : 1)) : (n <= 4 ? 99 : 1); // histories longer than this are not expanded
         std::map<std::vector<int>, std::vector<size_t>> seen; // counters -> history reaching it
         std::deque<std::vector<size_t>> queue;
         seen[std::vector<int>(size_t(n + g), 0)] = std::vector<size_t>();
